@@ -1,6 +1,6 @@
 import Lemmas.Conv128AsFloatUlp2
 import Lemmas.Conv128RatValue
-import Lemmas.Conv128Scan
+import Lemmas.Conv128Misc
 /-! # C02 — 128-bit integers convert and print losslessly and saturate when out of range
 
 Property theorems only.  The executable model is `Model/Conv128.lean` (namespace `Conv`) over the binary64 model
@@ -18,8 +18,10 @@ open Conv GoSem GoSem.F64
 theorem toString_denotes_u (u : U128) : u.toString = natDigits u.toNat ∧ decVal u.toString = u.toNat := by
   rw [U128.toString_eq]; exact ⟨rfl, decVal_natDigits _⟩
 
-/-- … and of an `Int128` the digit string of its exact value with a leading `-` for negative values -/
-theorem toString_denotes_i (i : I128) : i.toString = intDigits i.toInt := I128.toString_eq i
+/-- … and of an `Int128` the digit string of its exact value with a leading `-` for negative values; the integer the
+    text denotes (`signedDecVal`: decimal value of the digits, negated after a leading `-`) is the exact value -/
+theorem toString_denotes_i (i : I128) : i.toString = intDigits i.toInt ∧ signedDecVal i.toString = i.toInt := by
+  rw [I128.toString_eq]; exact ⟨rfl, signedDecVal_intDigits _⟩
 
 /-- `string_parse_roundtrip` (Uint128): parsing the rendered text yields the identical value -/
 theorem string_parse_roundtrip_u (u : U128) : U128.fromString u.toString = some u := by
@@ -177,28 +179,44 @@ theorem scan_reads_back_oct (verb : Char) (hv : verb = 'o' ∨ verb = 'O') (u : 
   · apply scan_of_parse_i
     rw [scan_parse_oct verb hv sgi (signFor_isSign hi) k i.toInt.natAbs]; congr 1; exact signFor_value hi
 
-/-- full statement for hexadecimal: every `%x` rendering reads back with `%x` / `%X`.  Proved below for digit strings
-    without the digit `e`; a text containing `e` takes the `big.Rat` branch of `parseToBigInt` (hexadecimal mantissa
-    without exponent), which is compared with the real code on every run (area `scan`, oracle `glue`) but whose
-    read-back is not derived here.  Upper-case renderings (`%X`) are likewise covered by the run only. -/
-def scan_reads_back_hex_Statement : Prop :=
-  ∀ (verb : Char), verb = 'x' ∨ verb = 'X' → ∀ (u : U128) (k : Nat) (sg : List Char), SignFor (u.toNat : Int) sg →
-    U128.scan (sg ++ (zeros k ++ baseDigits 16 u.toNat)) verb = some u
-
-/-- `scan_reads_back`, hexadecimal, proved part: any sign form and zero padding — including the single padding zero in
-    front of a leading digit `b` (`%03x` of 177 = `0b1`), which is not taken for a binary prefix — for values whose
-    hexadecimal digits do not include `e` -/
-theorem scan_reads_back_hex_partial (verb : Char) (hv : verb = 'x' ∨ verb = 'X') (u : U128) (i : I128) (k : Nat)
-    (sgu sgi : List Char) (hu : SignFor (u.toNat : Int) sgu) (hi : SignFor i.toInt sgi)
-    (heu : hasExpChar (baseDigits 16 u.toNat) = false) (hei : hasExpChar (baseDigits 16 i.toInt.natAbs) = false) :
+/-- `scan_reads_back`, hexadecimal, **every value of both types**: `%x` text (lower-case digits) with any sign form and
+    any zero padding — including the single padding zero in front of a leading digit `b` (`%03x` of 177 = `0b1`), which is
+    not taken for a binary prefix — reads back with `%x` and with `%X`.  No hypothesis on the digits: a text containing the
+    digit `e` takes the `big.Rat` branch of `parseToBigInt`, where `0x…` is a hexadecimal mantissa without radix point and
+    without exponent (`e` is a digit of the base) and denotes the fraction value/1 (`Conv.parse_hex_body`). -/
+theorem scan_reads_back_hex (verb : Char) (hv : verb = 'x' ∨ verb = 'X') (u : U128) (i : I128) (k : Nat)
+    (sgu sgi : List Char) (hu : SignFor (u.toNat : Int) sgu) (hi : SignFor i.toInt sgi) :
     U128.scan (sgu ++ (zeros k ++ baseDigits 16 u.toNat)) verb = some u ∧
     I128.scan (sgi ++ (zeros k ++ baseDigits 16 i.toInt.natAbs)) verb = some i := by
   constructor
   · apply scan_of_parse_u
-    have := scan_parse_hex verb hv sgu (signFor_isSign hu) k u.toNat heu
-    rw [this]; congr 1; exact signFor_value hu
+    rw [scan_parse_hex_all verb hv sgu (signFor_isSign hu) k u.toNat]; congr 1; exact signFor_value hu
   · apply scan_of_parse_i
-    rw [scan_parse_hex verb hv sgi (signFor_isSign hi) k i.toInt.natAbs hei]; congr 1; exact signFor_value hi
+    rw [scan_parse_hex_all verb hv sgi (signFor_isSign hi) k i.toInt.natAbs]; congr 1; exact signFor_value hi
+
+/-- `scan_reads_back`, hexadecimal, upper case: `%X` text (`baseDigitsU`, digits `A`–`F`) with any sign form and zero
+    padding reads back with `%X` and with `%x`, for every value of both types -/
+theorem scan_reads_back_hex_upper (verb : Char) (hv : verb = 'x' ∨ verb = 'X') (u : U128) (i : I128) (k : Nat)
+    (sgu sgi : List Char) (hu : SignFor (u.toNat : Int) sgu) (hi : SignFor i.toInt sgi) :
+    U128.scan (sgu ++ (zeros k ++ baseDigitsU 16 u.toNat)) verb = some u ∧
+    I128.scan (sgi ++ (zeros k ++ baseDigitsU 16 i.toInt.natAbs)) verb = some i := by
+  constructor
+  · apply scan_of_parse_u
+    rw [scan_parse_hexU_all verb hv sgu (signFor_isSign hu) k u.toNat]; congr 1; exact signFor_value hu
+  · apply scan_of_parse_i
+    rw [scan_parse_hexU_all verb hv sgi (signFor_isSign hi) k i.toInt.natAbs]; congr 1; exact signFor_value hi
+
+/-- hexadecimal text of ANY shape of digits (mixed case, any length, any padding) denotes its Horner value under
+    `%x` / `%X`, saturated to the type's range like every other constructor from text -/
+theorem scan_hex_digits_value (verb : Char) (hv : verb = 'x' ∨ verb = 'X') (body : List Char) (hne : body ≠ [])
+    (hall : ∀ c ∈ body, digitVal c < 16) :
+    U128.scan body verb = some (U128.fromBigInt (digitsVal 16 body : Int)) ∧
+    I128.scan ('-' :: body) verb = some (I128.fromBigInt (-(digitsVal 16 body : Int))) := by
+  have h1 := scan_parse_hex_body verb hv [] (Or.inl rfl) body hne hall
+  have h2 := scan_parse_hex_body verb hv ['-'] (Or.inr (Or.inr rfl)) body hne hall
+  simp only [List.nil_append, List.cons_append, reduceCtorEq, if_false, if_true] at h1 h2
+  unfold U128.scan I128.scan U128.fromString I128.fromString
+  rw [h1, h2]; exact ⟨rfl, rfl⟩
 
 /-- every verb other than `b o O d x X` leaves the token alone: `Scan` is `FromString` of the token -/
 theorem scan_other_verbs (verb : Char) (h : verbPrefix verb = none) (t : List Char) :
@@ -209,6 +227,10 @@ theorem scan_other_verbs (verb : Char) (h : verbPrefix verb = none) (t : List Ch
 /-- non-vacuity: `0b1` under `%x` is 177, `000123` under `%d` is 123, `10` under `%x` is 16 -/
 example : U128.scan ['0', 'b', '1'] 'x' = some ⟨0#64, 177#64⟩ ∧ U128.scan ['0', '0', '0', '1', '2', '3'] 'd' = some ⟨0#64, 123#64⟩ ∧
     U128.scan ['1', '0'] 'x' = some ⟨0#64, 16#64⟩ := by decide
+
+/-- … and the `big.Rat` branch: `1e` under `%x` and `1E` under `%X` are 0x1e = 30; `baseDigitsU 16 0x1ebe` is `1EBE` -/
+example : U128.scan ['1', 'e'] 'x' = some ⟨0#64, 30#64⟩ ∧ U128.scan ['1', 'E'] 'X' = some ⟨0#64, 30#64⟩ ∧
+    hasExpChar ['0', 'x', '1', 'e'] = true := by decide
 
 /-! ## big.Int -/
 
@@ -281,6 +303,11 @@ theorem isInt64_iff_asInt64_preserves (i : I128) : i.isInt64 = true ↔ i.asInt6
   I128.isInt64_iff i
 theorem isUint64_iff_asUint64_preserves_i (i : I128) : i.isUint64 = true ↔ (i.asUint64.toNat : Int) = i.toInt :=
   I128.isUint64_iff i
+
+/-- `Uint128.Int64()` of the `json.Number` interface succeeds exactly when the value is below 2^63 and then returns it -/
+theorem int64_spec_u (u : U128) :
+    (u.int64 = none ↔ ¬ u.toNat < 2^63) ∧ ∀ v, u.int64 = some v → v.toInt = (u.toNat : Int) :=
+  U128.int64_spec u
 
 /-- `Int64()` of the `json.Number` interface succeeds exactly when the value fits and then returns it -/
 theorem int64_spec (i : I128) :
